@@ -111,6 +111,13 @@ EvalNode(S, i, t) ==
             IN  IF anyTick
                 THEN [S1 EXCEPT !.st[i] = iv[1], !.pend[i] = t + n.k]
                 ELSE S1
+      [] n.kind = "echo" ->
+            \* every input is echoed k steps later; echoes accumulate (fbq[i] is the node's queue of <<time, value>>)
+            LET due == S.fbq[i] # <<>> /\ S.fbq[i][1][1] = t
+                S1  == IF due THEN (IF allOk THEN Write([S EXCEPT !.fbq[i] = Tail(@)], i, t, S.fbq[i][1][2])
+                                    ELSE [S EXCEPT !.fbq[i] = Tail(@)])
+                       ELSE S
+            IN  IF anyTick THEN [S1 EXCEPT !.fbq[i] = Append(@, <<t + n.k, iv[1]>>)] ELSE S1
       [] n.kind = "ite" ->
             \* C13: the output is a reference to the selected input; readers observe the referenced target itself.
             \* st[i] = the concrete node currently referenced (0 = nothing published yet).  A reference to another
